@@ -9,6 +9,8 @@ CONSTANTS
   HandlerSeqs <- T_HSeqs
   UpProgs <- T_UpProgs
   CRProg <- T_CR
+  Forms = {"fresh", "once"}
+  Colls = {"k1", "k2"}
   QuitOn = TRUE
   QuitDeferred = TRUE
   DefCap = 4
